@@ -472,7 +472,7 @@ func genWop(r *vx.Rng) wop {
 			elems = append(elems, rbytes(r, k))
 		}
 		reported := count
-		if r.Chance(1, 8) {
+		if k > 0 && r.Chance(1, 8) { // never with zero-size elements (known finding D02d: the reader would iterate the reported count)
 			reported = count + 1 + r.Intn(70000) // a callback that misreports its count
 		}
 		w := wop{kind: "collection", term: joinT("WCollection", lptT(l), listOfBytes(elems), vx.Z(int64(reported))), read: ropCollection(l, k),
@@ -493,7 +493,7 @@ func genWop(r *vx.Rng) wop {
 	}
 }
 
-// runWrite writes pre, then the op, into a fresh ByteBuffer.
+// runWrite writes pre, then the op, then a sentinel byte into a fresh ByteBuffer.
 func runWrite(pre []byte, o wop) (out []byte, err error, panicked bool) {
 	_, panicked, _ = measured(func() {
 		w := stream.NewByteBuffer()
@@ -501,6 +501,9 @@ func runWrite(pre []byte, o wop) (out []byte, err error, panicked bool) {
 			return
 		}
 		if err = o.run(w); err != nil {
+			return
+		}
+		if _, err = w.Write([]byte{0xEE}); err != nil { // sentinel: makes the final write position observable
 			return
 		}
 		b, _ := w.Bytes()
